@@ -118,6 +118,7 @@ uint64_t rndBelow(uint64_t n);
 void fail(const char* cls, const char* fmt, ...) __attribute__((format(printf,2,3)));   // record violation, end run
 void failSoft(const char* cls, const char* fmt, ...) __attribute__((format(printf,2,3)));// record violation (first wins), continue
 bool failed();
+uint32_t decisionCount(int task, int kind);   // number of choose() calls of this kind made by the task so far (valid until the next run starts)
 void stubError(const char* fmt, ...) __attribute__((format(printf,1,2)));               // machinery problem -> exit 2
 
 void logEvent(const char* kind, int64_t a = 0, int64_t b = 0, int64_t c = 0);
